@@ -361,9 +361,13 @@ func expectation(cont, key stick.Value, args []stick.Value) (mode expMode, cands
 		if key != nil {
 			kv := reflect.ValueOf(key)
 			if kv.Type().AssignableTo(kt) && kv.Type().Comparable() {
-				if e := rv.MapIndex(kv); e.IsValid() {
-					exact, haveExact = e.Interface(), true
-				}
+				// comparable by type is not hashable by value: a struct with an interface field holding a slice
+				func() {
+					defer func() { recover() }()
+					if e := rv.MapIndex(kv); e.IsValid() {
+						exact, haveExact = e.Interface(), true
+					}
+				}()
 			}
 		}
 		if haveExact {
@@ -376,6 +380,9 @@ func expectation(cont, key stick.Value, args []stick.Value) (mode expMode, cands
 				k := mk.Interface()
 				if pk, ok := predeclared(k); ok {
 					k = pk
+				}
+				if mk.Kind() == reflect.String {
+					k = mk.String() // also for a string type with a String method: as a key it is the string that counts
 				}
 				if !isScalar(k) {
 					continue
@@ -730,6 +737,20 @@ func (p *c16) runIter(res *fw.Result, z gen.Named) {
 				res.Fail("iskind", key, fmt.Sprintf("IsArray(%s)=%v IsMap=%v for kind %s", z.Label, isArr, isMap, rv.Kind()), nil)
 			}
 		}
+		// a key or index handed out by the traversal finds its own element again
+		if err == nil && (rv.Kind() == reflect.Map || rv.Kind() == reflect.Slice || rv.Kind() == reflect.Array) {
+			for _, e := range evs {
+				if f, isF := e.k.(float64); isF && math.IsNaN(f) {
+					continue // a NaN key cannot be looked up
+				}
+				got, gerr, gpan := safeGetAttr(z.V, e.k, nil)
+				res.Evals++
+				if gpan != nil || gerr != nil || !deepEq(got, e.v) {
+					res.Fail("iterated-key", key+":roundtrip", fmt.Sprintf("Iterate(%s) handed out key %#v (%T) with element %s, but GetAttr with that key gives (%s, %v, panic %v)", z.Label, e.k, e.k, clip(fmt.Sprintf("%#v", e.v), 80), clip(fmt.Sprintf("%#v", got), 80), gerr, gpan), nil)
+					break
+				}
+			}
+		}
 		needles := []stick.Value{"e1", 101, "v0", 0, nil, "zzz", 1.5, true, "a"}
 		for _, e := range evs {
 			needles = append(needles, e.v)
@@ -754,7 +775,7 @@ func (p *c16) runIter(res *fw.Result, z gen.Named) {
 }
 
 func (p *c16) Rule() string {
-	return "getattr: the full product container zoo (nil/empty/populated slices and arrays of several element types, maps keyed by string/int/float/bool/uint8/interface/struct, structs with exported, unexported, func-typed fields and value/pointer-receiver methods of arity 0..2, variadic, multi-return, no-return, pointer/interface/float/slice parameters; through 0..2 pointer levels; nil pointers; non-containers) x key zoo (strings incl. field/method names, ints, floats incl. NaN/Inf/1e30, bools, nil, nil pointer, containers, Stringer, safe value) x 22 argument lists; expectation computed with plain reflection in the harness: the element when the key/arguments are usable as given, element-or-error when a conversion is conceivable (number for a string-keyed map, numeric string or bool for a slice, fractional index, float for an int parameter, second pointer level), error otherwise; never a panic, never a wrong element. Each pair is also driven through {{ v[k] }}, {% for %} and 'in' in a template. iterate: every zoo value plus generated slices/maps of length 0..8 through 0..2 pointer levels: order, exactly-once, loop identities at every position, returned count, early break at 1..3, and agreement of Len, Contains (needles present and absent), IsIterable, IsArray, IsMap with the traversal. random: seeded nested containers (maps keyed by string/int/float/bool/uint8/interface, slices, arrays, pointers, structs; depth<=3) looked up with one of their own keys (as is, or carried by another numeric type / as a numeric string) or a zoo key, and iterated. Non-trivial = key usable or convertible, or a method call; distinct = (container, key, arg list)."
+	return "getattr: the full product container zoo (nil/empty/populated slices and arrays of several element types, maps keyed by string/int/float/bool/uint8/interface/struct, structs with exported, unexported, func-typed fields and value/pointer-receiver methods of arity 0..2, variadic, multi-return, no-return, pointer/interface/float/slice parameters; through 0..2 pointer levels; nil pointers; non-containers) x key zoo (strings incl. field/method names, ints, floats incl. NaN/Inf/1e30, bools, nil, nil pointer, containers, Stringer, safe value) x 22 argument lists; expectation computed with plain reflection in the harness: the element when the key/arguments are usable as given, element-or-error when a conversion is conceivable (number for a string-keyed map, numeric string or bool for a slice, fractional index, float for an int parameter, second pointer level), error otherwise; never a panic, never a wrong element. Each pair is also driven through {{ v[k] }}, {% for %} and 'in' in a template. iterate: every zoo value plus generated slices/maps of length 0..8 through 0..2 pointer levels: order, exactly-once, loop identities at every position, returned count, early break at 1..3, and agreement of Len, Contains (needles present and absent), IsIterable, IsArray, IsMap with the traversal; every key or index handed out by the traversal must find its own element again through GetAttr. random: seeded nested containers (maps keyed by string/int/float/bool/uint8/interface, slices, arrays, pointers, structs; depth<=3) looked up with one of their own keys (as is, or carried by another numeric type / as a numeric string) or a zoo key, and iterated. Non-trivial = key usable or convertible, or a method call; distinct = (container, key, arg list)."
 }
 
 func (p *c16) Assumptions() []string {
